@@ -3,10 +3,34 @@ import json
 import random
 
 from harness import strings as S, obs
+from harness.tlc import from_atoms
 from harness.props import c08
 
 CLAUSES = ('C07a', 'C07c')
 INV = ['C07a_TolerantExtends', 'C07c_OnlyClosers']
+
+
+def closer_deletions(chk, quick):
+    """well-formed documents without math / verbatim / list regions (DocGen) that lost exactly one closer"""
+    from harness import docs as D
+    from harness.tlc import from_atoms
+    pools = {'Budget': 4 if quick else 5, 'TextPool': ['x', ' ', 't u'], 'ComPool': [], 'CmdNames': ['a', 'bb'], 'EnvNames': ['e', 'f'],
+             'ListNames': [], 'MathKinds': [], 'MEnvNames': [], 'VerbNames': [], 'Leaves': [], 'Labels': [''], 'MaxSib': 2, 'MaxArgs': 2, 'MaxDepth': 3}
+    recs, _ = D.generate(chk, 'wfdocs', pools, ['C01_RoundTrip', 'C02_Structure'])
+    out = []
+    for r in recs:
+        src = from_atoms(r['i'])
+        for k, pos, ln in r['nodes']:
+            pos, ln = int(pos), int(ln)
+            text = src[pos:pos + ln]
+            if k == 'group':
+                if text.endswith(']') and ']' in src[pos + ln:]:
+                    continue        # a later ']' legitimately absorbs the loss (brackets do not nest): outside clause (b)
+                out.append(src[:pos + ln - 1] + src[pos + ln:])
+            elif k == 'env':
+                e = text.rfind('\\end{')
+                out.append(src[:pos + e] + src[pos + ln:])
+    return list(dict.fromkeys(out))
 
 
 def run(chk):
@@ -26,6 +50,19 @@ def run(chk):
     S.standard(chk, sc, INV, CLAUSES,
                'strict ok => tolerant identical; tolerant ok => output = input + inserted closers only',
                extra_sources=extra)
+    # clause (b): one closer lost => strict reports an error, tolerant succeeds
+    damaged = closer_deletions(chk, quick)
+    res = S.explore(chk, 'closerloss', [], invariants=['C07b_CloserLossRepaired', 'C07c_OnlyClosers'], sources=damaged, timeout=3000)
+    S.model_must_hold(chk, res)
+    S.replay(chk, res.records)
+    exps = obs.experiments(damaged)
+    for e in exps:
+        src = from_atoms(e['i'])
+        chk.case('closerloss:' + src)
+        if e['A']['o'] == 'ok' or e['B']['o'] != 'ok':
+            chk.violation('C07b', {'input': src, 'kind': 'closer-deletion', 'strict': e['A']['o'], 'tolerant': e['B']['o'],
+                                   'what': 'a well-formed document that lost one closer: strict must report an error, tolerant must succeed'})
+    chk.count('closer_deletions', len(damaged))
     chk.assumptions += ['(c) is evaluated on sources satisfying the side conditions of C08 (no NUL/DEL, no re-braced bare '
                         'argument) and additionally permits the whitespace normalisation C08 permits (weaker reading)',
                         '(b) closer-loss repair is checked on generated documents by the DocGen part of this check']
